@@ -697,6 +697,65 @@ def run_corpus(chk, drv, llb, model):
     chk.cov["corpus_histories"] = len(hs)
     chk.cov["corpus_laundering_observations"] = dict(phony_virtual=pv, symlink_mustfollow=sy)
 
+# ---- repairs that change the DESCRIPTION (the recorded node value FailedInput / MissingInput must not be up to date)
+
+def mk(name, tool, inputs, outputs):
+    return dict(name=name, tool=tool, inputs=inputs, outputs=outputs, need=None, blocked=None, contents=None)
+
+def with_all(cmds):
+    outs = []
+    for c in cmds:
+        for o in c["outputs"]:
+            if o not in outs: outs.append(o)
+    return dict(idx=0, cmds=cmds + [mk("all", "phony", outs, ["<all>"])], structs=[], sources=["src0.txt"], leaf_virtual=False, builds=[dict(fail={}, edit=None)], mode="", pattern="desc")
+
+DESC_REPAIRS = [
+    # two producers of x.out (the node cannot be built: FailedInput); repaired by removing one of them
+    ("two-producers", with_all([mk("a", "shell", ["src0.txt"], ["x.out"]), mk("b", "shell", ["src0.txt"], ["x.out"]), mk("c", "shell", ["x.out"], ["o_c.out"])]),
+     with_all([mk("a", "shell", ["src0.txt"], ["x.out"]), mk("c", "shell", ["x.out"], ["o_c.out"])]), {"c"}, {"a", "c"}),
+    # a declared input nobody produces and which does not exist (MissingInput); repaired by adding its producer
+    ("add-producer", with_all([mk("c", "shell", ["gen.out", "src0.txt"], ["o_c.out"])]),
+     with_all([mk("g", "shell", ["src0.txt"], ["gen.out"]), mk("c", "shell", ["gen.out", "src0.txt"], ["o_c.out"])]), {"c"}, {"g", "c"}),
+]
+
+def run_description_repairs(chk, drv, llb):
+    n = 0
+    for (tag, h0, h1, blocked0, must1) in DESC_REPAIRS:
+        for mode in ("cli-serial", "drv-0-keepgoing", "drv-4-cancel"):
+            S = os.path.join(BASE, "desc-%s-%s" % (tag, mode))
+            shutil.rmtree(S, ignore_errors=True); os.makedirs(S)
+            trace = []
+            def rp(extra):
+                d = dict(scenario=tag, mode=mode, sandbox=S, description_before=description(h0), description_after=description(h1), trace=trace); d.update(extra); return d
+            open(os.path.join(S, "build.llbuild"), "w").write(description(h0))
+            apply_state(S, h0, 0, True)
+            r0 = run_build(S, h0, mode, drv, llb)
+            open(os.path.join(S, "build.llbuild"), "w").write(description(h1))
+            r1 = run_build(S, h1, mode, drv, llb) if not r0.get("crash") else r0
+            n += 2
+            chk.count(("desc", tag, mode), n=2)
+            if r0.get("crash") or r1.get("crash"):
+                chk.violation("build-crash", "the build driver crashed in scenario %s" % tag, rp(dict(raw=(r0.get("raw"), r1.get("raw")))), found_input=True, broken="c10 driver"); continue
+            trace += [dict(build=0, ok=r0["ok"], executed=sorted(r0["executed"])), dict(build=1, ok=r1["ok"], executed=sorted(r1["executed"]))]
+            if r0["ok"]:
+                chk.violation("failure-not-reported", "scenario %s: the build reports success although a node cannot be built (mode %s)" % (tag, mode), rp({}), found_input=True, broken="c10 oracle: build reports failure")
+            if blocked0 & r0["executed"]:
+                chk.violation("downstream-executed", "scenario %s: %s executed although its input could not be built (mode %s)" % (tag, sorted(blocked0 & r0["executed"]), mode), rp({}), found_input=True, broken="c10 oracle: no downstream execution")
+            C = S + ".clean"
+            shutil.rmtree(C, ignore_errors=True); os.makedirs(C)
+            open(os.path.join(C, "build.llbuild"), "w").write(description(h1))
+            apply_state(C, h1, 0, True)
+            rc, out, err = vlib.sh([llb, "buildsystem", "build", "--serial", "--chdir", C], timeout=120)
+            fa, fb = final_state(S, h1), final_state(C, h1)
+            if not r1["ok"] or not must1 <= r1["executed"] or fa != fb:
+                chk.violation("not-rebuilt-after-description-repair", "scenario %s: after the description was repaired the build %s, executed %s (expected at least %s), outputs %s a clean build (mode %s): the recorded node value was treated as up to date"
+                              % (tag, "succeeds" if r1["ok"] else "still fails", sorted(r1["executed"]), sorted(must1), "equal" if fa == fb else "differ from", mode),
+                              rp(dict(incremental=fa, clean=fb)), found_input=True, broken="c10 oracle: convergence after repair")
+            else:
+                shutil.rmtree(S, ignore_errors=True)
+            shutil.rmtree(C, ignore_errors=True)
+    chk.cov["description_repair_builds"] = n
+
 def run(chk):
     drv = vlib.build_drivers(["bsys_driver"])["bsys_driver"]
     llb = vlib.llbuild_bin()
@@ -706,6 +765,7 @@ def run(chk):
     os.makedirs(BASE)
     run_tables(chk, drv, model)
     run_corpus(chk, drv, llb, model)
+    run_description_repairs(chk, drv, llb)
     run_histories(chk, drv, llb, model)
     chk.assumptions = ["engine property C02 (a rule whose recorded value is not valid runs again; its dependents are re-evaluated after it) is cited, not proved here",
                        "values are modelled by kind; payload comparisons of isResultValid enter as a boolean (fs_ok)",
